@@ -49,6 +49,12 @@ class Raised(Exception):
     where: int = 0
 
 
+@dataclass(frozen=True)
+class FnRef:
+    """a function of the evaluated module used as a value (passed to reduce / map / stored in a dispatch table)"""
+    name: str
+
+
 class _Return(Exception):
 
     def __init__(self, value):
@@ -72,12 +78,28 @@ class PyReader:
         self.depth_limit = depth_limit
         self.depth = 0
         self.hazards: list = []
+        self._globals_cache: dict = {}
+        self._globals_busy: set = set()
 
     def _imports(self, module: str, name: str) -> bool:
         return any(isinstance(s, ast.ImportFrom) and s.module == module and any(a.name == name and a.asname is None for a in s.names) for s in self.module.body)
 
     def global_value(self, n: ast.AST):
-        """hook: value of a module-level name / attribute chain (None = not known)"""
+        """hook: value of a module-level name / attribute chain (None = not known). Default: a name bound exactly once at module level by a
+        plain assignment is evaluated on demand (dispatch tables, constants)."""
+        if isinstance(n, ast.Name):
+            if n.id in self._globals_cache:
+                return self._globals_cache[n.id]
+            defs = [st for st in self.module.body if (isinstance(st, ast.Assign) and len(st.targets) == 1 and isinstance(st.targets[0], ast.Name) and st.targets[0].id == n.id)
+                    or (isinstance(st, ast.AnnAssign) and st.value is not None and isinstance(st.target, ast.Name) and st.target.id == n.id)]
+            if len(defs) == 1 and n.id not in self._globals_busy:
+                self._globals_busy.add(n.id)
+                try:
+                    v = self.ev(defs[0].value, {}, {})
+                finally:
+                    self._globals_busy.discard(n.id)
+                self._globals_cache[n.id] = v
+                return v
         return None
 
     def fail(self, n: ast.AST, why: str):
@@ -258,12 +280,16 @@ class PyReader:
         if isinstance(n, ast.Name):
             if n.id in env:
                 return env[n.id]
+            if n.id in fns or n.id in self.functions:
+                return FnRef(n.id)
             g = self.global_value(n)
             if g is not None:
                 return g
             if n.id == "pi":
                 return T("pi")
             self.fail(n, "unbound name")
+        if isinstance(n, ast.JoinedStr):
+            return "str"  # text of a message: its content is never decided on
         if isinstance(n, ast.Attribute):
             d = dotted(n)
             if d in ("S.Zero", ):
@@ -291,6 +317,10 @@ class PyReader:
             r = self.hook_attr(base, n.attr, n)
             if r is not NotImplemented:
                 return r
+            fn_ = self.functions.get(n.attr)
+            if fn_ is not None and (fn_.args.posonlyargs + fn_.args.args) and (fn_.args.posonlyargs + fn_.args.args)[0].arg in ("self", "cls") \
+                    and not isinstance(base, (T, int, list, dict, str)):
+                return ("bound", n.attr, base)  # a method of the flattened class taken as a value
             self.fail(n, "attribute")
         if isinstance(n, ast.UnaryOp):
             v = self.ev(n.operand, env, fns)
@@ -390,7 +420,7 @@ class PyReader:
                         return base[k]
                     raise Raised("IndexError", getattr(n, "lineno", 0))
             self.fail(n, "subscript")
-        if isinstance(n, (ast.ListComp, ast.GeneratorExp)) and len(n.generators) == 1 and not n.generators[0].ifs:
+        if isinstance(n, (ast.ListComp, ast.GeneratorExp)) and len(n.generators) == 1:
             g = n.generators[0]
             it = self.ev(g.iter, env, fns)
             if not isinstance(it, list):
@@ -399,7 +429,18 @@ class PyReader:
             for x in it:
                 e2 = dict(env)
                 self.assign(g.target, x, e2, n)
-                out.append(self.ev(n.elt, e2, fns))
+                keep = True
+                for cond in g.ifs:
+                    c = self.ev(cond, e2, fns)
+                    if c is None:
+                        c = False
+                    if not isinstance(c, bool):
+                        self.fail(cond, "comprehension condition not decidable")
+                    if not c:
+                        keep = False
+                        break
+                if keep:
+                    out.append(self.ev(n.elt, e2, fns))
             return out
         if isinstance(n, ast.DictComp) and len(n.generators) == 1 and not n.generators[0].ifs:
             g = n.generators[0]
@@ -416,7 +457,28 @@ class PyReader:
             return {self.ev(k, env, fns): self.ev(v, env, fns) for k, v in zip(n.keys, n.values)}
         if isinstance(n, ast.Call):
             return self.ev_call(n, env, fns)
+        if isinstance(n, ast.Lambda):
+            return ("lambda", n, dict(env))
         self.fail(n, type(n).__name__)
+
+    def apply_value(self, fval, args: list, n: ast.AST, fns: dict, kwargs: Optional[dict] = None):
+        """call a function VALUE: a FnRef, a lambda closure, or operator.add / operator.mul"""
+        if isinstance(fval, FnRef):
+            return self.call(fval.name, args, kwargs, fns)
+        if isinstance(fval, tuple) and len(fval) == 3 and fval[0] == "lambda":
+            lam, cenv = fval[1], dict(fval[2])
+            params = [a.arg for a in lam.args.args]
+            if len(params) != len(args) or lam.args.vararg or lam.args.kwarg:
+                self.fail(n, "lambda arity")
+            cenv.update(dict(zip(params, args)))
+            return self.ev(lam.body, cenv, fns)
+        if isinstance(fval, tuple) and len(fval) == 3 and fval[0] == "bound":
+            return self.call(fval[1], [fval[2]] + list(args), kwargs, fns)
+        if isinstance(fval, tuple) and len(fval) == 2 and fval[0] == "operator" and len(args) == 2:
+            fake = ast.BinOp(left=ast.Name(id="__op_l__", ctx=ast.Load()), op=ast.Add() if fval[1] == "add" else ast.Mult(), right=ast.Name(id="__op_r__", ctx=ast.Load()))
+            ast.copy_location(fake, n)
+            return self.ev(fake, {"__op_l__": args[0], "__op_r__": args[1]}, fns)
+        self.fail(n, "call of a value that is not a known function")
 
     def scalar(self, v, n: ast.AST) -> T:
         if isinstance(v, T):
@@ -511,16 +573,31 @@ class PyReader:
             return r
         f = dotted(n.func) or ""
         name = f.split(".")[-1]
-        if name == "reduce" and len(n.args) in (2, 3) and isinstance(n.args[0], ast.Name) and n.args[0].id == "add" and self._imports("operator", "add"):
+        if name == "reduce" and len(n.args) in (2, 3):
+            fval = self.ev(n.args[0], env, fns) if not (isinstance(n.args[0], ast.Name) and n.args[0].id in ("add", "mul") and self._imports("operator", n.args[0].id)) \
+                else ("operator", n.args[0].id)
             seq = self.ev(n.args[1], env, fns)
             if not isinstance(seq, list):
                 self.fail(n, "reduce over a non-concrete sequence")
-            acc = self.ev(n.args[2], env, fns) if len(n.args) == 3 else None
-            for x in seq:
-                acc = x if acc is None else (x if (isinstance(acc, int) and acc == 0) else op("add", self.scalar(acc, n), self.scalar(x, n)))
-            if acc is None:
+            items = list(seq)
+            if len(n.args) == 3:
+                acc = self.ev(n.args[2], env, fns)
+            elif items:
+                acc = items.pop(0)
+            else:
                 raise Raised("TypeError", getattr(n, "lineno", 0))
+            for x in items:
+                acc = self.apply_value(fval, [acc, x], n, fns)
             return acc
+        if name == "next" and len(n.args) in (1, 2):
+            seq = self.ev(n.args[0], env, fns)
+            if not isinstance(seq, list):
+                self.fail(n, "next() of a non-concrete iterable")
+            if seq:
+                return seq[0]
+            if len(n.args) == 2:
+                return self.ev(n.args[1], env, fns)
+            raise Raised("StopIteration", getattr(n, "lineno", 0))
         if name == "map" and len(n.args) == 2 and isinstance(n.args[0], ast.Lambda) and len(n.args[0].args.args) == 1:
             seq = self.ev(n.args[1], env, fns)
             if not isinstance(seq, list):
@@ -647,8 +724,15 @@ class PyReader:
                 return self.has_names(base, names)
         if name == "diff" and len(args) >= 2:
             return op("diff", self.scalar(args[0], n), *[self.scalar(a, n) for a in args[1:]])
+        if isinstance(n.func, ast.Name) and n.func.id in env and isinstance(env[n.func.id], (FnRef, tuple)):
+            return self.apply_value(env[n.func.id], args, n, fns, kwargs)
         if name in fns or name in self.functions:
             if isinstance(n.func, ast.Name) or f.startswith("CoordinateSystem.") is False:
+                fn_ = fns.get(name) or self.functions.get(name)
+                first = (fn_.args.posonlyargs + fn_.args.args)[0].arg if (fn_.args.posonlyargs + fn_.args.args) else None
+                if isinstance(n.func, ast.Attribute) and first in ("self", "cls"):
+                    # a method of the flattened class called on an object: bind it
+                    return self.call(name, [self.ev(n.func.value, env, fns)] + args, kwargs, fns)
                 return self.call(name, args, kwargs, fns)
         if f.startswith("CoordinateSystem.system_to_transformation_name"):
             return "name"
